@@ -750,9 +750,14 @@ theorem fc11_getObj_at {s s' : Server} {i : Nat} {x : Client} (hobj : s'.objs = 
   have : getObj s' i = getObj (setObj s i x) i := getObj_of_objs_eq (s := setObj s i x) hobj i
   rw [this, getObj_setObj_eq s i x hlt]
 
+/-- `processPublish` deletes the record found under the packet id: a non-inline client, a record that is not an open
+    inbound QoS 2 exchange (that one is answered with PUBREC 0x91 and kept) -/
+def fc11PubDel (c : Client) (id : Nat) : Bool :=
+  !c.inline && (match flGet c id with | some m => m.type != 5 | none => false)
+
 theorem processPublish_fc (L : Fc11Laws P) (s : Server) (i : Nat) (qos : Nat) (dup retain : Bool) (id : Nat)
     (topic payload : Str) (msgExpiry : Nat) (alias : Option Nat)
-    (hdel : P (getObj s i) → P (flDelete (getObj s i) id).1) :
+    (hdel : fc11PubDel (getObj s i) id = true → P (getObj s i) → P (flDelete (getObj s i) id).1) :
     Fc11G P s (processPublish s i qos dup retain id topic payload msgExpiry alias).1 := by
   unfold processPublish
   extract_lets +onlyGivenNames c
@@ -799,12 +804,31 @@ theorem processPublish_fc (L : Fc11Laws P) (s : Server) (i : Nat) (qos : Nat) (d
               · cases h; exact ackRes_fst s i 5 id 0x91
               · cases h
             · cases h
-        generalize pre = pre' at hpre
+        have hpre2 : pre = none → (!c.inline && (flGet c id).isSome) = true → fc11PubDel c id = true := by
+          intro h hc
+          simp only [pre] at h
+          unfold fc11PubDel
+          cases hin : c.inline with
+          | true => rw [hin] at hc; simp at hc
+          | false =>
+            rw [hin] at h hc
+            simp only [Bool.false_eq_true, if_false] at h
+            cases hg : flGet c id with
+            | none => rw [hg] at hc; simp at hc
+            | some m =>
+              rw [hg] at h
+              simp only at h
+              split at h
+              · cases h
+              · rename_i h5
+                simp [bne, h5]
+        generalize pre = pre' at hpre hpre2
         split
         · rename_i r
           rw [hpre r rfl]
           exact Fc11G.refl s
         · clear hpre
+          have hpd := hpre2 rfl
           split
           rename_i s1 c1 heq
           have h1 : s1.clients = s.clients ∧ s1.objs = s.objs.set i c1 ∧ (P c → P c1) ∧
@@ -812,7 +836,7 @@ theorem processPublish_fc (L : Fc11Laws P) (s : Server) (i : Nat) (qos : Nat) (d
             split at heq
             · rename_i hcond
               cases heq
-              refine ⟨rfl, rfl, hdel, rfl, rfl, fun _ => fc11_flGet_flDelete c id⟩
+              refine ⟨rfl, rfl, hdel (hpd hcond), rfl, rfl, fun _ => fc11_flGet_flDelete c id⟩
             · rename_i hcond
               cases heq
               refine ⟨rfl, ?_, fun x => x, rfl, rfl, fun hin => ?_⟩
@@ -975,7 +999,8 @@ theorem processPublish_fc (L : Fc11Laws P) (s : Server) (i : Nat) (qos : Nat) (d
 /-- **the local condition on an inbound packet**: the update the handler makes to the acting client's own records
     and quotas keeps `P` (per branch of the handler). Trivial for SUBSCRIBE, UNSUBSCRIBE, PINGREQ, DISCONNECT. -/
 def fc11PkOK (P : Client → Prop) (s : Server) (i : Nat) : InPk → Prop
-  | .publish _ _ _ id _ _ _ _ => P (getObj s i) → P (flDelete (getObj s i) id).1
+  | .publish _ _ _ id _ _ _ _ =>
+    fc11PubDel (getObj s i) id = true → P (getObj s i) → P (flDelete (getObj s i) id).1
   | .puback id _ => P (getObj s i) → P (incSend (flDelete (getObj s i) id).1)
   | .pubrec id rc =>
     if (rc ≥ 0x80 || !reasonValid 5 rc) = true then P (getObj s i) → P (flDelete (getObj s i) id).1
@@ -1667,5 +1692,122 @@ theorem fc11RecvP_laws : Fc11Laws fc11RecvP := by
     · have hdl := fc11_flDelete_last (flSet (decRecv c) a).1 c.inflight a hinf (fc11_flGet_none hfr)
       have hI := fc11_incRecv_fields (flDelete (flSet (decRecv c) a).1 a.id).1
       rw [hI.1, hdl]; exact hd
+
+/-! ### the send side -/
+
+/-- `SendAcc`, and while send quota is left no record is deferred (so `nextImmediate` never releases — F09: a release
+    deletes the record of a message that has just been sent) -/
+def fc11SendP (c : Client) : Prop :=
+  SendAcc c ∧ (0 < c.maxSend → 0 < c.sendQuota → ∀ m ∈ c.inflight, 0 ≤ m.expiry)
+
+instance : DecidablePred fc11SendP := fun c => by unfold fc11SendP; infer_instance
+
+theorem fc11_out_append (L : List Msg) (a : Msg) :
+    (L ++ [a]).countP fc11Out = L.countP fc11Out + (if fc11Out a then 1 else 0) := by
+  rw [List.countP_append]
+  simp [List.countP_cons]
+
+theorem fc11SendP_laws : Fc11Laws fc11SendP := by
+  refine ⟨?_, ?_, ?_, ?_, ?_⟩
+  · intro a b h1 _ h3 _ h5 ⟨hr, hd⟩
+    refine ⟨?_, by rw [h1, h3, h5]; exact hd⟩
+    unfold SendAcc outboundOpen at *
+    rw [h1, h3, h5]; exact hr
+  · intro c out ht he hfr ⟨hr, hd⟩
+    have hF := fc11_decSend_fields { c with inflight := c.inflight ++ [out] }
+    refine ⟨fun hnd => ⟨?_, ?_⟩, fun h0 hm => ⟨?_, ?_⟩⟩
+    · have hyes : fc11Out out = true := by
+        unfold fc11Out; rw [ht]; simpa using he
+      unfold SendAcc outboundOpen at *
+      rw [hF.1, hF.2.2.2.1, hF.2.2.2.2]
+      intro hm
+      have hm' : 0 < c.maxSend := hm
+      show c.sendQuota - 1 + (c.inflight ++ [out]).countP fc11Out = c.maxSend
+      rw [fc11_out_append, hyes]
+      have := hr hm'
+      have hq : c.sendQuota ≠ 0 := fun e => hnd ⟨e, hm'⟩
+      simp only [if_true]
+      omega
+    · rw [hF.1, hF.2.2.2.1, hF.2.2.2.2]
+      intro hm hq m hmem
+      have hm' : 0 < c.maxSend := hm
+      have hq' : 0 < c.sendQuota := by
+        have : 0 < c.sendQuota - 1 := hq
+        omega
+      rcases List.mem_append.mp hmem with hmem | hmem
+      · exact hd hm' hq' m hmem
+      · rw [List.mem_singleton.mp hmem]; exact he
+    · have hl := fc11_flSet_last (decSend { c with inflight := c.inflight ++ [out] }) c.inflight out
+        { out with expiry := -1 } hF.1 (fc11_flGet_none hfr) rfl
+      have hq := fc11_flSet_fields (decSend { c with inflight := c.inflight ++ [out] }) { out with expiry := -1 }
+      have hno : fc11Out { out with expiry := -1 } = false := by
+        unfold fc11Out
+        simp
+      unfold SendAcc outboundOpen at *
+      rw [hl, hq.2.1, hq.2.2.2, hF.2.2.2.1, hF.2.2.2.2, fc11_out_append, hno]
+      intro hm'
+      have := hr hm'
+      show c.sendQuota - 1 + _ = c.maxSend
+      simp only [Bool.false_eq_true, if_false]
+      omega
+    · have hq := fc11_flSet_fields (decSend { c with inflight := c.inflight ++ [out] }) { out with expiry := -1 }
+      rw [hq.2.1, hF.2.2.2.2]
+      intro _ hpos
+      have : 0 < c.sendQuota - 1 := hpos
+      omega
+  · intro c h1 _ h3
+    refine ⟨?_, by rw [h1]; intro _ _ m hm; cases hm⟩
+    unfold SendAcc outboundOpen
+    rw [h1]; intro _; simpa using h3
+  · intro c _ ⟨_, hd⟩ m hm hlt hq
+    have hF := fc11_decSend_fields (flDelete c m.id).1
+    have hms : (decSend (flDelete c m.id).1).maxSend = c.maxSend := hF.2.2.2.1
+    have hzero : ¬ 0 < c.maxSend := by
+      intro hpos
+      have := hd hpos hq m hm
+      omega
+    refine ⟨?_, ?_⟩
+    · unfold SendAcc
+      rw [hms]; intro h; exact absurd h hzero
+    · rw [hms]; intro h; exact absurd h hzero
+  · intro c a hta hea hfr _ ⟨hr, hd⟩
+    have hno : fc11Out a = false := by
+      unfold fc11Out
+      rcases hta with h | h <;> rw [h] <;> rfl
+    have hD := fc11_decRecv_fields c
+    have hfr' : flGet (decRecv c) a.id = none := by rw [fc11_flGet_congr hD.1]; exact hfr
+    have hfl := fc11_flSet_fresh (decRecv c) a hfr'
+    have hinf : (flSet (decRecv c) a).1.inflight = c.inflight ++ [a] := by rw [hfl, ← hD.1]
+    have hq := fc11_flSet_fields (decRecv c) a
+    refine ⟨⟨?_, ?_⟩, fun _ => ⟨?_, ?_⟩⟩
+    · unfold SendAcc outboundOpen at *
+      rw [hinf, hq.2.1, hq.2.2.2, hD.2.1, hD.2.2.2.1, fc11_out_append, hno]
+      simpa using hr
+    · rw [hinf, hq.2.1, hq.2.2.2, hD.2.1, hD.2.2.2.1]
+      intro hm hq' m hmem
+      rcases List.mem_append.mp hmem with hmem | hmem
+      · exact hd hm hq' m hmem
+      · rw [List.mem_singleton.mp hmem]; exact hea
+    · have hdl := fc11_flDelete_last (flSet (decRecv c) a).1 c.inflight a hinf (fc11_flGet_none hfr)
+      have hI := fc11_incRecv_fields (flDelete (flSet (decRecv c) a).1 a.id).1
+      have hY1 : (flDelete (flSet (decRecv c) a).1 a.id).1.sendQuota = c.sendQuota := by
+        show (flSet (decRecv c) a).1.sendQuota = _
+        rw [hq.2.1, hD.2.1]
+      have hY2 : (flDelete (flSet (decRecv c) a).1 a.id).1.maxSend = c.maxSend := by
+        show (flSet (decRecv c) a).1.maxSend = _
+        rw [hq.2.2.2, hD.2.2.2.1]
+      unfold SendAcc outboundOpen at *
+      rw [hI.1, hdl, hI.2.1, hI.2.2.2.1, hY1, hY2]
+      exact hr
+    · have hdl := fc11_flDelete_last (flSet (decRecv c) a).1 c.inflight a hinf (fc11_flGet_none hfr)
+      have hI := fc11_incRecv_fields (flDelete (flSet (decRecv c) a).1 a.id).1
+      have hY1 : (flDelete (flSet (decRecv c) a).1 a.id).1.sendQuota = c.sendQuota := by
+        show (flSet (decRecv c) a).1.sendQuota = _
+        rw [hq.2.1, hD.2.1]
+      have hY2 : (flDelete (flSet (decRecv c) a).1 a.id).1.maxSend = c.maxSend := by
+        show (flSet (decRecv c) a).1.maxSend = _
+        rw [hq.2.2.2, hD.2.2.2.1]
+      rw [hI.1, hdl, hI.2.1, hI.2.2.2.1, hY1, hY2]
+      exact hd
 
 end Mochi.Broker
